@@ -279,6 +279,10 @@ def call_name(eng, node, name, st):
     if name == "super":
         raise Unsupported("bare super()")
     if name in st.env:
+        if st.env[name].ty.kind == "type" and eng.reg.specfuns.get("type_value_call"):
+            # a class object held in a local variable, called as a constructor
+            tv = st.env[name]
+            return with_args(eng, node, st, lambda s, a, k: eng.reg.specfuns["type_value_call"](eng, s, tv, a, k))
         # calling a local callable (e.g. self._method(**kwargs)) -> handled in call_attr; here: local var
         raise Unsupported("call of local callable %s" % name)
     raise Unsupported("call of %s" % name)
